@@ -70,6 +70,11 @@ pub fn mod_ref(heap: &mut Heap, dotted: &str) -> ModuleReference {
   heap.alloc_module_reference_from_string_vec(dotted.split('.').map(|s| s.to_string()).collect())
 }
 
+/// lookup of an already interned module reference by dotted name
+pub fn mod_ref_lookup(heap: &Heap, dotted: &str) -> Option<ModuleReference> {
+  heap.get_allocated_module_reference_opt(dotted.split('.').map(|s| s.to_string()).collect())
+}
+
 pub fn source_handles(heap: &mut Heap, p: &Project) -> HashMap<ModuleReference, String> {
   p.modules.iter().map(|(n, t)| (mod_ref(heap, n), t.clone())).collect()
 }
